@@ -59,6 +59,8 @@ def roundtrip(bounds, blocked, api):
             require(same_int(f.pos, 0), 'file not rewound by close', key='C03/rewind', replay=rp)
         else:
             data = m.vbs_list_to_bytes(recs, blocked=blocked)
+            again = m.vbs_list_to_bytes(recs, blocked=blocked)
+            req_eq(again, data, 'a second call of vbs_list_to_bytes with the same records returns something else', key='C03/second-call', replay=rp)
         E = stream_of(recs)
         if blocked:
             check_blocked(data, E, True, nblocks, 'blocked file', key='C03/layout-blocked', replay=rp)
